@@ -113,6 +113,7 @@ theorem grows_evalInt (ops : CacheOps κ) (p : Profile) (g : Graph) (fuel : Nat)
       | integer pv _ => exact ih pv
       | enumeration pv _ => exact ih pv
       | boolean _ _ _ => exact grows_fail _
+      | ctls _ => exact grows_fail _
       | reg r =>
         dsimp only
         cases r.kind with
